@@ -1,6 +1,6 @@
 #!/bin/bash
-# import_seed.sh <PROP> <a|b|...>: copy a sub-agent's deliverable from /tmp/seed_out into /verif/seeded/<PROP><x>/
-P=$1; X=$2; SRC=/tmp/seed_out/$P/$X; DST=/verif/seeded/$P$X
+# import_seed.sh <PROP> <src letter> [<dst letter>]: copy a sub-agent's deliverable from $SEED_OUT (default /tmp/seed_out)/<PROP>/<src> into /verif/seeded/<PROP><dst>/
+P=$1; X=$2; Y=${3:-$2}; SRC=${SEED_OUT:-/tmp/seed_out}/$P/$X; DST=/verif/seeded/$P$Y
 mkdir -p $DST; cp -r $SRC/* $DST/; rm -f $DST/out_*.txt $DST/demo_a $DST/demo_b
 if [ -f $DST/demo.sh ]; then printf '#!/bin/sh\nexec "$(dirname "$0")/demo.sh" "$1"\n' > $DST/run_demo.sh
 elif [ -f $DST/run.sh ]; then printf '#!/bin/sh\nexec "$(dirname "$0")/run.sh" "$1"\n' > $DST/run_demo.sh
